@@ -57,13 +57,11 @@ macro_rules! impl_derivatives {
                     self * self
                 } else {
                     let n1 = n - F::one();
-                    let n2 = n1 - F::one();
-                    let n3 = n2 - F::one();
-                    let pow3 = self.re.powf(n3);
-                    let f0 = pow3.clone() * &self.re * &self.re * &self.re;
-                    let f1 = pow3.clone() * &self.re * &self.re * n;
-                    second!($deriv, let f2 = pow3.clone() * &self.re * n * n1;);
-                    third!($deriv, let f3 = pow3 * n * n1 * n2;);
+                    let f0 = self.re.powf(n);
+                    let f1 = self.re.powf(n1) * n;
+                    second!($deriv, let n2 = n1 - F::one(););
+                    second!($deriv, let f2 = self.re.powf(n2) * n * n1;);
+                    third!($deriv, let f3 = self.re.powf(n2 - F::one()) * n * n1 * n2;);
                     chain_rule!($deriv, Self::chain_rule(self, f0, f1, f2, f3))
                 }
             }
